@@ -4,7 +4,6 @@ specific to the property."""
 PROPS = {
  "C19": dict(
   families=[dict(name="order", model="marshal", quick=2000, thorough=40000)],
-  ignore_keys=["same"],
   rule="Schema values with 0-8 properties from a 15-name pool (incl. '', '~', '/', non-ASCII, digits) x PropertyOrder lists "
        "(none, permutation, subset, superset with absent names, only absent, duplicates, empty), nested to depth 2, each marshalled 5 times; "
        "non-trivial: >= 2 properties and a non-empty order; distinct by (property count, order length, output bytes)",
@@ -56,6 +55,7 @@ PROPS = {
   assumptions=["nil slices, nil maps and struct instances are outside the domain, as the property states"],
  ),
  "C11": dict(
+  obligations=[],
   families=[dict(name="equal", model="equal", quick=1500, thorough=40000)],
   ignore_keys=["hasheq"],
   rule="12 pairs per case of JSON values in independently drawn representations: identical values, near misses (x vs x.0, 2^53 vs 2^53+1, NFC vs NFD, permuted object members, single-leaf mutations), unrelated values; non-trivial: >= 3 pairs whose representations differ; distinct by case hash",
@@ -122,10 +122,22 @@ PROPS = {
  ),
 
  "C14": dict(
-  families=[dict(name="pure", model="val", quick=1500, thorough=40000, twice=True)],
-  rule="cases of the val/uneval/d7/ref/dyn/repr generators (kind in the note); per case: reflection snapshot (every field) of the Schema, of every document the caching loader handed out and of every instance before and after; Resolve twice on the same Schema plus once on a fresh Unmarshal, verdict vectors of all three and of a repeated run compared; 4 further runs on instances rebuilt with new maps in shuffled insertion order (each range draws a new iteration order); Marshal before, between and after plus 3 repeats; the whole family is run in two processes (other hash seeds) and the observation files are compared byte for byte (verdicts, loader calls, hash of the marshalled bytes); verdicts also compared with the model; non-trivial as in the underlying family",
+  obligations=["ObSchema", "ObWrites"],
+  families=[dict(name="pure", model="val", quick=1200, thorough=40000, twice=True),
+            dict(name="purego", model="marshal", quick=1500, thorough=40000, twice=True)],
+  rule="cases of the val/uneval/d7/ref/dyn/repr generators (kind in the note); per case: reflection snapshot (every field) of the Schema, of every document the caching loader handed out and of every instance before and after; Resolve twice on the same Schema plus once on a fresh Unmarshal, verdict vectors of all three and of a repeated run compared; 4 further runs on instances rebuilt with new maps in shuffled insertion order (each range draws a new iteration order); Marshal before, between and after plus 3 repeats; family purego: Schema values built in Go (PropertyOrder incl. strangers/duplicates, Extra, all subschema-holding fields) snapshotted before the package sees them, Marshal x5, Resolve, CloneSchemas, Marshal again, document and key order compared with the model; each family is run in two processes (other hash seeds) and the observation files are compared byte for byte (verdicts, loader calls, hash of the marshalled bytes); verdicts also compared with the model; non-trivial as in the underlying family",
   partial="independence of the verdict from the iteration order of instance and schema maps is sampled (repeated runs, rebuilt maps, second process), not proved; seed independence and Marshal's independence of map order are theorems",
   trusted_base=["reflection snapshot walks every struct field, map entry and slice element (unexported fields included)", "Go randomises map iteration per range statement and hash seeds per process"],
   assumptions=[],
+ ),
+
+ "C13": dict(
+  obligations=["ObSchema", "ObWrites"],
+  families=[dict(name="conc", model="val", quick=250, thorough=6000, race=True)],
+  ignore_keys=["calls"],
+  rule="binary built with -race (GORACE=halt_on_error=1); per case (val/uneval/d7/ref/dyn/repr/defaults generators) one Schema and one Resolved shared by 8 goroutines: validators over all instances in both directions and repeated, incl. struct-shaped instances of a reflect.StructOf type created for the case (cold process-wide tables), goroutines that Resolve/Marshal/CloneSchemas the shared Schema, goroutines that ApplyDefaults on their own copies; every goroutine's results compared with the same calls made one after another; verdicts also compared with the model; non-trivial as in the underlying family",
+  partial="the Go memory model, the scheduler and sync.Map are outside the model: that the code's steps have the form the theorem is about (shared state only read, memo entries a function of the key) is checked by the write-footprint obligation (syntactic: assignments and mutating calls through receivers, parameters, package variables; aliases are not followed) and observed by the race detector on the schedules the runs produce",
+  trusted_base=["Go race detector (happens-before, on executed schedules)", "go/ast write-footprint extraction (harness/srcfacts.go)"],
+  assumptions=["user-supplied Loader functions are per goroutine"],
  ),
 }
